@@ -5,7 +5,9 @@
 import Vita.C02.Lemmas
 import Vita.C02.CseLemmas
 import Vita.C02.ReachLemmas
+import Vita.C02.GenLemmas
 namespace Vita.C02
+open Vita.IntE GenSem
 
 /-! ## symbol_set::roulette -/
 
@@ -514,6 +516,25 @@ theorem team_members_reachable {ss : SymSet} {rows : Nat} {t : Team}
     rw [hs.1] at hk
     exact Reachable.crossover (ihl _ (getD_mem_of_lt _ _ _ hk))
       (ihr _ (getD_mem_of_lt _ _ _ (by rw [hlen]; exact hk))) (hs.2 k hk)
+  | incAge _ hs ih =>
+    intro x hx
+    obtain ⟨k, hk, rfl⟩ := exists_getD_of_mem teamMutation.default_ind hx
+    rw [hs.1] at hk
+    exact Reachable.incAge (ih _ (getD_mem_of_lt _ _ _ hk)) (hs.2 k hk)
+
+/-- `team(std::vector<T>)`: a team whose members are (observationally) given reachable individuals
+    is a reachable team. -/
+theorem team_of_members {ss : SymSet} (hc : 0 < ss.cats) {rows : Nat} {pre post : Team}
+    (hp : ∀ x ∈ pre, Reachable ss rows x) (hs : TeamOfMembersStep pre post) :
+    TReachable ss rows post := by
+  refine TReachable.ofMembers ?_
+  intro x hx
+  obtain ⟨k, hk, rfl⟩ := exists_getD_of_mem teamMutation.default_ind hx
+  rw [hs.1] at hk
+  have hr := hp _ (getD_mem_of_lt pre k teamMutation.default_ind hk)
+  have hw := (wf_closed hc hr).1
+  obtain ⟨h1, h2, h3, h4, h5⟩ := hs.2 k hk
+  exact Reachable.getBlock hr hw.best ⟨h1, h2, h3, h4, h5⟩
 
 /-- … hence every reachable team is well-formed. -/
 theorem wf_closed_team {ss : SymSet} (hc : 0 < ss.cats) {rows : Nat} {t : Team}
@@ -595,6 +616,16 @@ theorem teamCrossover_refines {lhs rhs : Team} (d : Nat → XDraw)
   rw [this]
   exact crossover_refines (d k) (hd k hk)
 
+theorem teamIncAge_refines (t : Team) : TeamIncAgeStep t (teamIncAge t) := by
+  refine ⟨by simp [teamIncAge], ?_⟩
+  intro k hk
+  have : (teamIncAge t).getD k teamMutation.default_ind
+      = incAge (t.getD k teamMutation.default_ind) := by
+    simp only [teamIncAge]
+    rw [getD_map_range _ _ _ _ hk]
+  rw [this]
+  exact ⟨SameShape.refl _, rfl, rfl, rfl, fun _ _ _ _ => rfl⟩
+
 theorem treachableF_treachable {ss : SymSet} (hv : ss.Valid) {rows : Nat} (hp : rows ≤ PACK)
     {t : Team} (h : TReachableF ss rows t) : TReachable ss rows t := by
   induction h with
@@ -607,6 +638,7 @@ theorem treachableF_treachable {ss : SymSet} (hv : ss.Valid) {rows : Nat} (hp : 
     rw [(wf_closed hv.cats_pos (hm x hx)).2]; exact hp
   | crossover _ _ hlen hd ihl ihr =>
     exact TReachable.crossover ihl ihr hlen (teamCrossover_refines _ hd)
+  | incAge _ ih => exact TReachable.incAge ih (teamIncAge_refines _)
 
 /-- **Closure theorem for teams.** -/
 theorem wf_closed_team_functions {ss : SymSet} (hv : ss.Valid) {rows : Nat} (hp : rows ≤ PACK)
@@ -634,6 +666,306 @@ theorem team_mutation_zero_id (ss : SymSet) (pl : Nat) (eqv : Gene → Gene → 
     rw [mutation_zero_id]
 
 /-! ## non-vacuity: concrete values meeting the hypotheses above -/
+
+/-! ## The bounds extracted from the C++ sources (Gen.lean) denote the model's operators -/
+
+/-- In every generated write the loop variables are the coordinates of the written cell (so
+    "the loop covers row `i`" and "cell `(i, c)` is written" coincide). -/
+theorem gen_tables_wellformed :
+    ∀ w ∈ Gen.ctor ++ Gen.xoverOnePoint.writes ++ Gen.xoverTwoPoints.writes ++
+        Gen.xoverUniform.writes ++ Gen.destroy, w.ok = true := by
+  decide
+
+/-- `i_mep(problem)`: the two loops of the constructor, read off the AST, leave at every cell the
+    gene the model's `randomInd` has there; `best_` is `{0, 0}`; the flavour is drawn below the
+    number of enumerators of `crossover_t`. -/
+theorem gen_ctor_denotes (ss : SymSet) (rows pl xo : Nat) (d : Nat → Nat → GDraw) (frm : Ind)
+    (base : Nat → Nat → Gene) (hpl : pl ≤ rows) (i c : Nat) (hi : i < rows) (hc : c < ss.cats) :
+    denote ss (cellEnv rows pl ss.cats) frm d (fun _ _ => true) Gen.ctor base i c
+      = (randomInd ss rows pl xo d).gene i c ∧
+    (evalZ (cellEnv rows pl ss.cats i c) Gen.ctorBest.1 = (randomInd ss rows pl xo d).best.idx ∧
+     evalZ (cellEnv rows pl ss.cats i c) Gen.ctorBest.2 = (randomInd ss rows pl xo d).best.cat) ∧
+    Gen.flavours.length = 4 := by
+  refine ⟨?_, ⟨by simp [Gen.ctorBest, evalZ, randomInd], by simp [Gen.ctorBest, evalZ, randomInd]⟩, by decide⟩
+  simp only [denote, Gen.ctor, List.foldl, Write.covers, orange, Range.has, evalZ, binZ, cellEnv,
+    Vars.env, Src.gene, randomInd, drawGene]
+  by_cases h : i < rows - pl
+  · have h2 : ¬ ((rows : Int) - pl ≤ i) := by omega
+    simp [h, h2, hc]
+  · have h2 : ((rows : Int) - pl ≤ i) := by omega
+    simp [h, h2, hc, hi]
+
+/-- The constructor's sections: a row is written by the first loop iff it lies before
+    `rows - patch_length` (standard section), by the second iff it is one of the last
+    `patch_length` rows (patch section); every row is written by exactly one of them. -/
+theorem gen_ctor_sections (rows pl cats : Nat) (hpl : pl ≤ rows) (i c : Nat) (hi : i < rows)
+    (hc : c < cats) :
+    ∃ w1 w2, Gen.ctor = [w1, w2] ∧
+      (w1.covers (cellEnv rows pl cats i c) i c ↔ i < rows - pl) ∧
+      (w2.covers (cellEnv rows pl cats i c) i c ↔ rows - pl ≤ i) := by
+  refine ⟨_, _, rfl, ?_, ?_⟩ <;>
+    simp [Write.covers, orange, Range.has, evalZ, binZ, cellEnv, Vars.env] <;> omega
+
+/-- The draws the constructor's sources consume at a covered cell are exactly the model's
+    `DrawOK`: a standard-section gene draws its arguments in `[i + 1, rows)`. -/
+theorem gen_ctor_draws (ss : SymSet) (rows pl : Nat) (hpl : pl ≤ rows) (i c : Nat) (hi : i < rows)
+    (hc : c < ss.cats) (d : GDraw) :
+    (∀ w ∈ Gen.ctor, w.covers (cellEnv rows pl ss.cats i c) i c →
+        w.src.drawOK ss (cellEnv rows pl ss.cats i c) d) ↔ DrawOK ss rows pl i c d := by
+  simp only [Gen.ctor, List.mem_cons, List.mem_nil_iff, or_false, forall_eq_or_imp, forall_eq,
+    Write.covers, orange, Range.has, evalZ, binZ, cellEnv, Vars.env, Src.drawOK, DrawOK]
+  by_cases h : i < rows - pl
+  · have h2 : ¬ ((rows : Int) - pl ≤ i) := by omega
+    have h1 : (i : Int) < (rows : Int) - pl := by omega
+    have h3 : ((i : Int) + 1).toNat = i + 1 := by omega
+    simp [h, h1, h2, hc, h3]
+  · have h2 : ((rows : Int) - pl ≤ i) := by omega
+    have h1 : ¬ ((i : Int) < (rows : Int) - pl) := by omega
+    simp [h, h1, h2, hc, hi]
+
+/-- Argument range: whatever the generated standard-section source (constructor and mutation
+    alike) hands to `gene(symbol, from, sup)`, an index drawn in `[from, sup)` designates a
+    strictly later row inside the genome. -/
+theorem gen_arg_range (rows pl cats i c : Nat) (a : Int) :
+    (∀ w ∈ Gen.ctor, ∀ cat lo sup, w.src = .roulette cat lo sup →
+      evalZ (cellEnv rows pl cats i c) lo ≤ a → a < evalZ (cellEnv rows pl cats i c) sup →
+      (i : Int) < a ∧ a < rows) ∧
+    (∀ g e cat lo sup, Gen.mutationCand = .cond g (.roulette cat lo sup) e →
+      evalZ (cellEnv rows pl cats i c) lo ≤ a → a < evalZ (cellEnv rows pl cats i c) sup →
+      (i : Int) < a ∧ a < rows) := by
+  constructor
+  · intro w hw cat lo sup hs h1 h2
+    simp only [Gen.ctor, List.mem_cons, List.mem_nil_iff, or_false] at hw
+    rcases hw with rfl | rfl
+    · simp only [Src.roulette.injEq] at hs
+      obtain ⟨-, rfl, rfl⟩ := hs
+      simp [evalZ, binZ, cellEnv, Vars.env] at h1 h2
+      omega
+    · simp at hs
+  · intro g e cat lo sup hs h1 h2
+    simp only [Gen.mutationCand, Src.cond.injEq, Src.roulette.injEq] at hs
+    obtain ⟨-, ⟨-, rfl, rfl⟩, -⟩ := hs
+    simp [evalZ, binZ, cellEnv, Vars.env] at h1 h2
+    omega
+
+/-- `mutation`: the candidate gene built for the locus of the iterator is the model's `drawGene`
+    (standard section before `rows - patch_length`, a terminal after), its draws obey the model's
+    `DrawOK`, and the loop has the modelled shape: it walks `begin()..end()` (the exons), tests
+    `random::boolean(pgm)`, replaces the gene only when it differs and counts the replacements. -/
+theorem gen_mutation_denotes (ss : SymSet) (rows pl : Nat) (hpl : pl ≤ rows) (i c : Nat)
+    (d : GDraw) (frm : Ind) :
+    Gen.mutationCand.gene ss (cellEnv rows pl ss.cats i c) frm d = drawGene ss rows pl i c d ∧
+    (Gen.mutationCand.drawOK ss (cellEnv rows pl ss.cats i c) d ↔ DrawOK ss rows pl i c d) ∧
+    Gen.mutationShape = ["exons", "bernoulli(pgm)", "differs", "count", "assign"] := by
+  refine ⟨?_, ?_, rfl⟩
+  · simp only [Gen.mutationCand, Src.gene, evalZ, binZ, cmpZ, b2i, cellEnv, Vars.env, drawGene]
+    by_cases h : i < rows - pl
+    · have h1 : (i : Int) < (rows : Int) - pl := by omega
+      simp [h, h1]
+    · have h1 : ¬ ((i : Int) < (rows : Int) - pl) := by omega
+      simp [h, h1]
+  · simp only [Gen.mutationCand, Src.drawOK, evalZ, binZ, cmpZ, b2i, cellEnv, Vars.env, DrawOK]
+    by_cases h : i < rows - pl
+    · have h1 : (i : Int) < (rows : Int) - pl := by omega
+      have h3 : ((i : Int) + 1).toNat = i + 1 := by omega
+      simp [h, h1, h3]
+    · have h1 : ¬ ((i : Int) < (rows : Int) - pl) := by omega
+      simp [h, h1]
+
+/-- `crossover(lhs, rhs)`: `from` is `rhs` when the coin `b` holds and `lhs` otherwise, `to` is a
+    copy of the other one (as in the model's `crossover`); the switch has one case per
+    enumerator; the offspring takes `from`'s flavour and the older age and is `to`. -/
+theorem gen_xover_frame :
+    Gen.xoverParents = ["rhs", "lhs", "lhs", "rhs"] ∧
+    Gen.xoverCases = [(0, "one_point"), (1, "two_points"), (3, "uniform"), (2, "tree")] ∧
+    Gen.xoverMeta = ["flavour:=from.flavour", "age:=older(to.age,from.age)", "return:to"] ∧
+    Gen.xoverTree = ["start:random_locus(from)", "copy:to[l]:=from[l]", "recurse:from[l].arguments()"] :=
+  ⟨rfl, rfl, rfl, rfl⟩
+
+/-- One point: the single draw is `between(1, n - 1)` when `n > 2` and the constant 1 otherwise.
+    Its value is the model's `onePointCut`, its contract is the first clause of `XDrawOK`, the
+    primitive is callable (non-empty range – defect 2755e29 was its violation at `n = 2`), and the
+    cut lies in `[1, n)`, in `[1, n - 1)` when `n > 2`. -/
+theorem gen_one_point_cut (rows cats : Nat) (hr : 2 ≤ rows) (cut : Nat) (i c : Nat) :
+    ∃ dr, Gen.xoverOnePoint.draws = [dr] ∧
+      dr.value (xEnv rows cats 0 0 i c) cut = onePointCut rows cut ∧
+      (dr.ok (xEnv rows cats 0 0 i c) cut ↔ (2 < rows → 1 ≤ cut ∧ cut < rows - 1)) ∧
+      dr.callable (xEnv rows cats 0 0 i c) ∧
+      (dr.ok (xEnv rows cats 0 0 i c) cut →
+        1 ≤ onePointCut rows cut ∧ onePointCut rows cut < rows ∧
+        (2 < rows → onePointCut rows cut < rows - 1)) := by
+  refine ⟨_, rfl, ?_, ?_, ?_, ?_⟩
+  · simp only [Draw.value, evalZ, cmpZ, b2i, xEnv, Vars.env, onePointCut]
+    by_cases h : 2 < rows
+    · have : (rows : Int) > 2 := by omega
+      simp [h, this]
+    · have : ¬ (rows : Int) > 2 := by omega
+      simp [h, this]
+  · simp only [Draw.ok, evalZ, binZ, cmpZ, b2i, xEnv, Vars.env]
+    by_cases h : 2 < rows
+    · have : (rows : Int) > 2 := by omega
+      simp [this, h]; omega
+    · have : ¬ (rows : Int) > 2 := by omega
+      simp [this, h]
+  · simp only [Draw.callable, evalZ, binZ, cmpZ, b2i, xEnv, Vars.env]
+    by_cases h : 2 < rows
+    · have : (rows : Int) > 2 := by omega
+      simp [this]; omega
+    · have : ¬ (rows : Int) > 2 := by omega
+      simp [this]
+  · simp only [Draw.ok, evalZ, binZ, cmpZ, b2i, xEnv, Vars.env, onePointCut]
+    by_cases h : 2 < rows
+    · have : (rows : Int) > 2 := by omega
+      simp [this, h]; omega
+    · have : ¬ (rows : Int) > 2 := by omega
+      simp [this, h]; omega
+
+/-- One point: with the cut in variable 5 the generated loop copies `from` onto `to` from the cut
+    to the end: the offspring's gene at every cell is the model's `xoverGene`. -/
+theorem gen_one_point_denotes (ss : SymSet) (frm to : Ind) (d : XDraw) (hx : frm.xover = 0)
+    (dg : Nat → Nat → GDraw) (i c : Nat) (hi : i < frm.rows) (hc : c < frm.cols) :
+    denote ss (xEnv frm.rows frm.cols (onePointCut frm.rows d.cut) 0) frm dg (fun _ _ => true)
+      Gen.xoverOnePoint.writes to.gene i c = xoverGene frm to d i c := by
+  simp only [denote, Gen.xoverOnePoint, List.foldl, Write.covers, orange, Range.has, evalZ, xEnv,
+    Vars.env, Src.gene, xoverGene, hx]
+  by_cases h : onePointCut frm.rows d.cut ≤ i
+  · have h1 : ((onePointCut frm.rows d.cut : Nat) : Int) ≤ i := by omega
+    simp [h, h1, hi, hc]
+  · have h1 : ¬ ((onePointCut frm.rows d.cut : Nat) : Int) ≤ i := by omega
+    simp [h, h1]
+
+/-- Two points: `cut1 = sup(n - 1)`, `cut2 = between(cut1 + 1, n)`; the contracts are the
+    clauses of `XDrawOK`, both primitives are callable for `n ≥ 2`, and the `!=` loop from `cut1`
+    to `cut2` is sane (`cut1 < cut2`: it terminates and covers `[cut1, cut2)`). -/
+theorem gen_two_points_cuts (rows cats : Nat) (hr : 2 ≤ rows) (cut1 cut2 : Nat) (i c : Nat) :
+    ∃ d1 d2 w, Gen.xoverTwoPoints.draws = [d1, d2] ∧ Gen.xoverTwoPoints.writes = [w] ∧
+      (d1.ok (xEnv rows cats 0 0 i c) cut1 ↔ cut1 < rows - 1) ∧
+      d1.callable (xEnv rows cats 0 0 i c) ∧
+      d1.value (xEnv rows cats 0 0 i c) cut1 = cut1 ∧
+      (d2.ok (xEnv rows cats cut1 0 i c) cut2 ↔ cut1 + 1 ≤ cut2 ∧ cut2 < rows) ∧
+      (cut1 < rows - 1 → d2.callable (xEnv rows cats cut1 0 i c)) ∧
+      d2.value (xEnv rows cats cut1 0 i c) cut2 = cut2 ∧
+      (d2.ok (xEnv rows cats cut1 0 i c) cut2 →
+        ∃ r, w.rows = some r ∧ r.sane (xEnv rows cats cut1 cut2 i c)) := by
+  refine ⟨_, _, _, rfl, rfl, ?_, ?_, ?_, ?_, ?_, ?_, ?_⟩
+  · simp [Draw.ok, evalZ, binZ, xEnv, Vars.env]; omega
+  · simp [Draw.callable, evalZ, binZ, xEnv, Vars.env]; omega
+  · simp [Draw.value]
+  · simp [Draw.ok, evalZ, binZ, xEnv, Vars.env]; omega
+  · simp [Draw.callable, evalZ, binZ, xEnv, Vars.env]; omega
+  · simp [Draw.value]
+  · intro h
+    refine ⟨_, rfl, ?_⟩
+    simp [Draw.ok, evalZ, binZ, xEnv, Vars.env] at h
+    simp [Range.sane, evalZ, xEnv, Vars.env]; omega
+
+/-- Two points: the generated loop copies rows `[cut1, cut2)` of `from`: the model's `xoverGene`. -/
+theorem gen_two_points_denotes (ss : SymSet) (frm to : Ind) (d : XDraw) (hx : frm.xover = 1)
+    (dg : Nat → Nat → GDraw) (i c : Nat) (hc : c < frm.cols) :
+    denote ss (xEnv frm.rows frm.cols d.cut1 d.cut2) frm dg (fun _ _ => true)
+      Gen.xoverTwoPoints.writes to.gene i c = xoverGene frm to d i c := by
+  simp only [denote, Gen.xoverTwoPoints, List.foldl, Write.covers, orange, Range.has, evalZ, xEnv,
+    Vars.env, Src.gene, xoverGene, hx]
+  by_cases h : d.cut1 ≤ i ∧ i < d.cut2
+  · have h1 : (d.cut1 : Int) ≤ i ∧ (i : Int) < d.cut2 := by omega
+    simp [h, h1, hc]
+  · have h1 : ¬ ((d.cut1 : Int) ≤ i ∧ (i : Int) < d.cut2) := by omega
+    simp [h]
+
+/-- Uniform: no integer is drawn; every cell of the genome is visited and copied from `from` when
+    its coin holds: the model's `xoverGene`. -/
+theorem gen_uniform_denotes (ss : SymSet) (frm to : Ind) (d : XDraw) (hx : frm.xover = 3)
+    (dg : Nat → Nat → GDraw) (i c : Nat) (hi : i < frm.rows) (hc : c < frm.cols) :
+    Gen.xoverUniform.draws = [] ∧
+    denote ss (xEnv frm.rows frm.cols 0 0) frm dg d.mask
+      Gen.xoverUniform.writes to.gene i c = xoverGene frm to d i c := by
+  refine ⟨rfl, ?_⟩
+  simp only [denote, Gen.xoverUniform, List.foldl, Write.covers, orange, Range.has, evalZ, xEnv,
+    Vars.env, Src.gene, xoverGene, hx]
+  by_cases h : d.mask i c = true
+  · simp [h, hi, hc]
+  · simp [h]
+
+/-- `destroy_block(index, sset)`: one loop over the columns writes a terminal of the column's
+    category into row `index`, nothing else: the model's `destroyBlock`.  `get_block(l)` assigns
+    `best_` only. -/
+theorem gen_destroy_denotes (ss : SymSet) (x : Ind) (idx : Nat) (d : Nat → GDraw) (frm : Ind)
+    (i c : Nat) (hc : c < x.cols) :
+    denote ss (fun i c => cellEnv x.rows 0 x.cols i c idx) frm (fun _ c => d c) (fun _ _ => true)
+      Gen.destroy x.gene i c = (destroyBlock ss x idx d).gene i c ∧
+    Gen.getBlock = ["best_:=l"] := by
+  refine ⟨?_, rfl⟩
+  simp only [denote, Gen.destroy, List.foldl, Write.covers, orange, Range.has, evalZ, cellEnv,
+    Vars.env, Src.gene, destroyBlock]
+  by_cases h : i = idx
+  · subst h; simp [hc]
+  · have h1 : ¬ ((idx : Int) = i) := by omega
+    simp [h, h1]
+
+/-- `gene(symbol, from, sup)`: the argument pack has `arity` entries, each
+    `random::between(from, sup)` narrowed to 16 bits – the model's `geneOfSym` (`% PACK`); the
+    narrowing is the identity on `[from, sup)` as long as `sup ≤ 2^16`; `locus_of_argument(i)` pairs
+    the i-th index with the i-th argument category (the model's `argLoci`). -/
+theorem gen_gene_args (lo sup : Nat) :
+    Gen.geneArgs.count = "arity" ∧ 2 ^ Gen.geneArgs.bits = PACK ∧
+    evalZ (geneEnv lo sup) Gen.geneArgs.lo = lo ∧ evalZ (geneEnv lo sup) Gen.geneArgs.sup = sup ∧
+    (∀ (s : Sym) (d : GDraw), s.arity ≠ 0 →
+      (geneOfSym s d).args = (List.range s.arity).map (fun k => d.args k % 2 ^ Gen.geneArgs.bits)) ∧
+    (∀ v, lo ≤ v → v < sup → sup ≤ PACK → v % 2 ^ Gen.geneArgs.bits = v) ∧
+    Gen.argLocus = ["index:args[i]", "category:arg_category(i)"] := by
+  refine ⟨rfl, by decide, by simp [Gen.geneArgs, evalZ, geneEnv, Vars.env],
+    by simp [Gen.geneArgs, evalZ, geneEnv, Vars.env], ?_, ?_, rfl⟩
+  · intro s d h
+    simp [geneOfSym, h, Gen.geneArgs, PACK]
+  · intro v _ h2 h3
+    have : v < 65536 := by unfold PACK at h3; omega
+    simp [Gen.geneArgs]; omega
+
+/-- No unsigned computation in the extracted bounds wraps around: under the operators'
+    preconditions (`patch_length ≤ size`, `size ≥ 1`, `cut1 < size`) every intermediate value of
+    every generated expression is a natural number. -/
+theorem gen_nowrap (rows pl cats i c : Nat) (hpl : pl ≤ rows) (hr : 1 ≤ rows) (cut1 cut2 idx : Nat) :
+    (∀ w ∈ Gen.ctor, w.nowrap (cellEnv rows pl cats i c)) ∧
+    Gen.mutationCand.nowrap (cellEnv rows pl cats i c) ∧
+    (∀ dr ∈ Gen.xoverOnePoint.draws, dr.nowrap (xEnv rows cats 0 0 i c)) ∧
+    (∀ dr ∈ Gen.xoverTwoPoints.draws, dr.nowrap (xEnv rows cats cut1 0 i c)) ∧
+    (∀ w ∈ Gen.xoverOnePoint.writes ++ Gen.xoverTwoPoints.writes ++ Gen.xoverUniform.writes,
+      w.nowrap (xEnv rows cats cut1 cut2 i c)) ∧
+    (∀ w ∈ Gen.destroy, w.nowrap (cellEnv rows pl cats i c idx)) := by
+  refine ⟨?_, ?_, ?_, ?_, ?_, ?_⟩ <;>
+    simp [Gen.ctor, Gen.mutationCand, Gen.xoverOnePoint, Gen.xoverTwoPoints, Gen.xoverUniform,
+      Gen.destroy, Write.nowrap, Range.nowrap, Src.nowrap, Draw.nowrap, GenSem.nowrap, evalZ, binZ,
+      cellEnv, xEnv, Vars.env] <;> omega
+
+set_option linter.unusedVariables false in
+/-- Every extracted loop whose test is `v != bound` starts at or below its bound (so it terminates
+    and covers `[lo, bound)` like the `<` form): for the constructor and mutation because
+    `patch_length ≤ size`, for crossover because the cuts obey their contracts.  (Hypotheses
+    that the current tables do not need are kept: a `<` rewritten as `!=` must stay provable.) -/
+theorem gen_loops_sane (rows pl cats i c : Nat) (hpl : pl ≤ rows) (cut1 cut2 idx : Nat)
+    (h1 : cut1 ≤ cut2) (h2 : cut1 ≤ rows) :
+    (∀ w ∈ Gen.ctor, w.sane (cellEnv rows pl cats i c)) ∧
+    (∀ w ∈ Gen.xoverOnePoint.writes ++ Gen.xoverTwoPoints.writes ++ Gen.xoverUniform.writes,
+      w.sane (xEnv rows cats cut1 cut2 i c)) ∧
+    (∀ w ∈ Gen.destroy, w.sane (cellEnv rows pl cats i c idx)) := by
+  refine ⟨?_, ?_, ?_⟩ <;>
+    simp [Gen.ctor, Gen.xoverOnePoint, Gen.xoverTwoPoints, Gen.xoverUniform, Gen.destroy,
+      Write.sane, Range.sane, evalZ, binZ, cellEnv, xEnv, Vars.env] <;> omega
+
+/-- `team<i_mep>`: the constructor builds members `0 … n−1` (`n = env.team.individuals`) each by
+    `i_mep(problem)`; `crossover(lhs, rhs)` builds members `0 … lhs.individuals()−1`, the k-th being
+    `crossover(lhs[k], rhs[k])`; `mutation` mutates every member and adds up the counts;
+    `inc_age` ages every member – the index sets of `teamRandom`, `teamCrossover`, `teamMutation`. -/
+theorem gen_team_loops (n k : Nat) :
+    (Gen.teamCtor.range.has (teamEnv n k) k ↔ k ∈ List.range n) ∧
+    Gen.teamCtor.op = "member[k]:=i_mep(problem)" ∧ Gen.teamCtor.n = "env.team.individuals" ∧
+    (Gen.teamCrossover.range.has (teamEnv n k) k ↔ k ∈ List.range n) ∧
+    Gen.teamCrossover.op = "member[k]:=crossover(lhs[k],rhs[k])" ∧
+    Gen.teamCrossover.n = "lhs.individuals()" ∧
+    Gen.teamMutation = ["forall-members", "member.mutation(pgm,prb)", "sum"] ∧
+    Gen.teamIncAge = ["forall-members", "member.inc_age()"] := by
+  refine ⟨?_, rfl, rfl, ?_, rfl, rfl, rfl, rfl⟩ <;>
+    simp [Gen.teamCtor, Gen.teamCrossover, Range.has, evalZ, teamEnv, Vars.env]
 
 namespace Ex
 
@@ -755,6 +1087,19 @@ example : onePointCut 2 12345 = 1 ∧ ¬ (∃ cut, 1 ≤ cut ∧ cut < 2 - 1) :=
     stays inside the container; the sum itself would run past the end -/
 example : wedgeIdx (ss.terminals 0) 0 99 = some 0 ∧ wedgeIdx (ss.terminals 0) 0 100 = some 1 ∧
     wedgeIdx (ss.terminals 0) 0 299 = some 1 ∧ wedgeIdx (ss.terminals 0) 0 300 = none := by decide
+
+/-! the `gen_*` theorems at concrete values (their hypotheses are satisfiable) -/
+example := gen_ctor_denotes ss 4 1 2 (d0 4) a (fun _ _ => default) (by decide) 1 0 (by decide) (by decide)
+example := gen_ctor_sections 4 1 2 (by decide) 3 1 (by decide) (by decide)
+example := gen_ctor_draws ss 4 1 (by decide) 1 0 (by decide) (by decide) (d0 4 1 0)
+example := gen_mutation_denotes ss 4 1 (by decide) 1 0 (d0 4 1 0) a
+example := gen_one_point_cut 4 2 (by decide) 2 0 0
+example := gen_one_point_denotes ss a b ⟨false, 2, 0, 0, fun _ _ => false, 0⟩ (by decide) (d0 4) 2 0 (by decide) (by decide)
+example := gen_two_points_cuts 4 2 (by decide) 1 3 0 0
+example := gen_uniform_denotes ss { a with xover := 3 } b ⟨false, 0, 0, 0, fun i _ => i == 1, 0⟩ rfl (d0 4) 1 0
+  (by decide) (by decide)
+example := gen_nowrap 4 1 2 0 0 (by decide) (by decide) 1 3 2
+example := gen_loops_sane 4 1 2 0 0 (by decide) 1 3 2 (by decide) (by decide)
 
 end Ex
 
